@@ -294,7 +294,7 @@ Definition add_file (p : prog) (f : lstr) (dir : N) (info : option finfo) : res 
 
 (* LineProgram::new.
    `assert!(line_base <= 0); assert!(i16::from(line_base) + i16::from(line_range) > 0)` (the i16 sum of an
-   i8 and a u8 cannot overflow). Modelled at /repo commit 56e0acc (after fix eea5f40). *)
+   i8 and a u8 cannot overflow). Modelled at /repo commit a8af08f (after fixes eea5f40, 4a025e8, c8c5891, 64c2c71). *)
 Definition lp_new (dbg : bool) (e : enc) (l : lenc) (working_dir : lstr) (source_dir : option lstr)
            (source_file : lstr) (source_info : option finfo) : res prog :=
   if negb (le_line_base l <=? 0)%Z then Panic else
@@ -319,9 +319,14 @@ Definition begin_sequence (p : prog) (a : option waddr) : res prog :=
   | None => Ok p
   end.
 
-(* LineProgram::set_address *)
+Definition with_op_index (r : wrow) (opi : N) : wrow :=
+  mkWrow (w_address_offset r) opi (w_file r) (w_line r) (w_column r) (w_discriminator r)
+         (w_is_statement r) (w_basic_block r) (w_prologue_end r) (w_epilogue_begin r) (w_isa r).
+
+(* LineProgram::set_address: DW_LNE_set_address also resets the reader's op_index, so
+   `self.prev_row.op_index = 0` (fix 64c2c71) *)
 Definition set_address (p : prog) (a : waddr) : prog :=
-  push_insns [ISetAddress a] (set_in_seq true p).
+  set_prev (with_op_index (p_prev p) 0) (push_insns [ISetAddress a] (set_in_seq true p)).
 
 (* LineProgram::op_advance *)
 Definition op_advance (dbg : bool) (l : lenc) (row prev : wrow) : res N :=
@@ -364,22 +369,26 @@ Definition adv_line_stage (dbg : bool) (l : lenc) (line_advance : Z) : res (N * 
     else Ok (special_default l, false, [IAdvanceLine line_advance])
   else Ok (special_default l, false, []).
 
-(* `if op_advance != 0 { ... }` *)
+(* u64::saturating_mul / saturating_add *)
+Definition sat_mul64 (a b : N) : N := N.min (a * b) (two64 - 1).
+Definition sat_add64 (a b : N) : N := N.min (a + b) (two64 - 1).
+
+(* `if op_advance != 0 { ... }` (fix c8c5891: the fit tests saturate instead of overflowing) *)
 Definition adv_op_stage (dbg : bool) (l : lenc) (special : N) (use_special : bool) (op_adv : N)
   : res (N * bool * list linsn) :=
   let line_range := le_line_range l in
   if negb (op_adv =? 0) then
-    let* m := chk_mul 64 dbg op_adv line_range in
-    let* t := chk_add 64 dbg special m in
+    let t := sat_add64 special (sat_mul64 op_adv line_range) in
     let* (special_op_advance, const_add_pc) :=
       if t <=? 255 then Ok (op_adv, false)
       else
         if line_range =? 0 then Panic else                            (* division by zero *)
         let op_range := (255 - OPCODE_BASE) / line_range in
         let* d := chk_sub 64 dbg op_adv op_range in Ok (d, true) in
-    let* special_op := chk_mul 64 dbg special_op_advance line_range in
-    let* t2 := chk_add 64 dbg special special_op in
-    if t2 <=? 255 then Ok (t2, true, if const_add_pc then [IConstAddPc] else [])
+    let special_op := sat_mul64 special_op_advance line_range in
+    if sat_add64 special special_op <=? 255 then
+      let* t2 := chk_add 64 dbg special special_op in                 (* `special += special_op` *)
+      Ok (t2, true, if const_add_pc then [IConstAddPc] else [])
     else Ok (special, use_special, [IAdvancePc op_adv])
   else Ok (special, use_special, []).
 
@@ -412,17 +421,34 @@ Definition clear_row_flags (r : wrow) : wrow :=
   mkWrow (w_address_offset r) (w_op_index r) (w_file r) (w_line r) (w_column r) 0
          (w_is_statement r) false false false (w_isa r).
 
+(* fix 4a025e8: `line_delta` is an i128; the two `while` loops emit DW_LNS_advance_line(i64::MAX / i64::MIN)
+   until the rest fits an i64 (only one of the loops can run; |delta| < 2^64 needs at most 2 rounds).
+   Result: the chunk instructions and the remaining delta. *)
+Definition I64_MAX : Z := 9223372036854775807.
+Definition I64_MIN : Z := (-9223372036854775808).
+Fixpoint line_chunks (fuel : nat) (delta : Z) : res (list linsn * Z) :=
+  match fuel with
+  | O => OutOfFuel
+  | S f =>
+      if (I64_MAX <? delta)%Z then
+        let* (l, d) := line_chunks f (delta - I64_MAX)%Z in Ok (IAdvanceLine I64_MAX :: l, d)
+      else if (delta <? I64_MIN)%Z then
+        let* (l, d) := line_chunks f (delta - I64_MIN)%Z in Ok (IAdvanceLine I64_MIN :: l, d)
+      else Ok ([], delta)
+  end.
+
 (* LineProgram::generate_row *)
 Definition generate_row (dbg : bool) (p : prog) : res prog :=
   let row := p_row p in
   let prev := p_prev p in
   let fields := field_insns row prev in
   let row := clear_row_flags row in
-  (* `self.row.line as i64 - self.prev_row.line as i64` *)
-  let* line_advance := chk_s 64 dbg (to_i64 (w_line row) - to_i64 (w_line prev))%Z in
+  (* i128::from(self.row.line) - i128::from(self.prev_row.line), chunked *)
+  let* (chunks, d) := line_chunks 3 (Z.of_N (w_line row) - Z.of_N (w_line prev))%Z in
+  let line_advance := wrap_signed 64 d in                            (* `line_delta as i64` *)
   let* opa := op_advance dbg (p_lenc p) row prev in
   let* adv := advance_insns dbg (p_lenc p) line_advance opa in
-  Ok (set_prev row (set_row row (push_insns (fields ++ adv) (set_in_seq true p)))).
+  Ok (set_prev row (set_row row (push_insns (fields ++ chunks ++ adv) (set_in_seq true p)))).
 
 (* LineProgram::end_sequence *)
 Definition end_sequence (dbg : bool) (p : prog) (address_offset : N) : res prog :=
